@@ -34,16 +34,41 @@ async fn h_form(URLEncoded(b): URLEncoded<B>) -> &'static str { saw(vec![], vec!
 async fn h_text(Text(t): Text<String>) -> &'static str { saw(vec![], vec![Some(et(&t))]) }
 async fn h_all(a: u8, Query(q): Query<Q>, JSON(b): JSON<B>) -> &'static str { saw(vec![format!("i:{a}")], vec![Some(eq(&q)), Some(eb(&b))]) }
 async fn h_opts(f: Option<URLEncoded<B>>, t: Option<Text<String>>) -> &'static str { saw(vec![], vec![f.map(|URLEncoded(b)| eb(&b)), t.map(|Text(t)| et(&t))]) }
+// every IntoHandler shape: param form x 1..4 extractor items (Query, JSON, Option<URLEncoded>, Option<Text>)
+fn it1(q: &Q) -> Vec<Option<String>> { vec![Some(eq(q))] }
+fn it2(q: &Q, b: &B) -> Vec<Option<String>> { vec![Some(eq(q)), Some(eb(b))] }
+fn it3(q: &Q, b: &B, t: Option<Text<String>>) -> Vec<Option<String>> { vec![Some(eq(q)), Some(eb(b)), t.map(|Text(t)| et(&t))] }
+fn it4(q: &Q, b: &B, f: Option<URLEncoded<B>>, t: Option<Text<String>>) -> Vec<Option<String>> { vec![Some(eq(q)), Some(eb(b)), f.map(|URLEncoded(b)| eb(&b)), t.map(|Text(t)| et(&t))] }
+fn p1(a: u8) -> Vec<String> { vec![format!("i:{a}")] }
+fn p2(a: u8, b: &str) -> Vec<String> { vec![format!("i:{a}"), format!("s:{}", hex(b.as_bytes()))] }
+async fn c30((a,): (u8,), Query(q): Query<Q>) -> &'static str { saw(p1(a), it1(&q)) }
+async fn c31((a,): (u8,), Query(q): Query<Q>, JSON(b): JSON<B>) -> &'static str { saw(p1(a), it2(&q, &b)) }
+async fn c32((a,): (u8,), Query(q): Query<Q>, JSON(b): JSON<B>, t: Option<Text<String>>) -> &'static str { saw(p1(a), it3(&q, &b, t)) }
+async fn c33((a,): (u8,), Query(q): Query<Q>, JSON(b): JSON<B>, f: Option<URLEncoded<B>>, t: Option<Text<String>>) -> &'static str { saw(p1(a), it4(&q, &b, f, t)) }
+async fn c34(a: u8, Query(q): Query<Q>) -> &'static str { saw(p1(a), it1(&q)) }
+async fn c35(a: u8, Query(q): Query<Q>, JSON(b): JSON<B>, t: Option<Text<String>>) -> &'static str { saw(p1(a), it3(&q, &b, t)) }
+async fn c36(a: u8, Query(q): Query<Q>, JSON(b): JSON<B>, f: Option<URLEncoded<B>>, t: Option<Text<String>>) -> &'static str { saw(p1(a), it4(&q, &b, f, t)) }
+async fn c37((a, s): (u8, String), Query(q): Query<Q>) -> &'static str { saw(p2(a, &s), it1(&q)) }
+async fn c38((a, s): (u8, String), Query(q): Query<Q>, JSON(b): JSON<B>) -> &'static str { saw(p2(a, &s), it2(&q, &b)) }
+async fn c39((a, s): (u8, String), Query(q): Query<Q>, JSON(b): JSON<B>, t: Option<Text<String>>) -> &'static str { saw(p2(a, &s), it3(&q, &b, t)) }
+async fn c40((a, s): (u8, String), Query(q): Query<Q>, JSON(b): JSON<B>, f: Option<URLEncoded<B>>, t: Option<Text<String>>) -> &'static str { saw(p2(a, &s), it4(&q, &b, f, t)) }
+async fn c41(Query(q): Query<Q>, JSON(b): JSON<B>, t: Option<Text<String>>) -> &'static str { saw(vec![], it3(&q, &b, t)) }
+async fn c42(Query(q): Query<Q>, JSON(b): JSON<B>, f: Option<URLEncoded<B>>, t: Option<Text<String>>) -> &'static str { saw(vec![], it4(&q, &b, f, t)) }
 async fn h_mounted(a: u8) -> &'static str { saw(vec![format!("i:{a}")], vec![]) }
 
 fn app() -> ohkami::testing::TestingOhkami {
     use ohkami::testing::Testing;
     Ohkami::new((
         "/p0/:a".GET(h_u8), "/p1/:a".GET(h_i8), "/p2/:a".GET(h_u16), "/p3/:a".GET(h_i16), "/p4/:a".GET(h_u32), "/p5/:a".GET(h_i32),
-        "/p6/:a".GET(h_u64), "/p7/:a".GET(h_i64), "/p8/:a".GET(h_usize), "/p9/:a".GET(h_isize),
+        "/p6/:a".GET(h_u64), "/p7/:a".GET(h_i64),
         "/t".By(Ohkami::new((
             "/p10/:a".GET(h_string), "/p11/:a".GET(h_str), "/p12/:a".GET(h_cow), "/p13/:a/:b".GET(h_two), "/p14/:a/:b".GET(h_two2),
             "/p15".GET(h_query), "/p16".POST(h_json), "/p17".POST(h_optjson), "/p18".POST(h_form), "/p19".POST(h_text), "/p20/:a".POST(h_all), "/p23".POST(h_opts),
+        ))),
+        "/q".By(Ohkami::new((
+            "/p8/:a".GET(h_usize), "/p9/:a".GET(h_isize),
+            "/u".By(Ohkami::new(("/c30/:a".GET(c30), "/c31/:a".POST(c31), "/c32/:a".POST(c32), "/c33/:a".POST(c33), "/c34/:a".GET(c34), "/c35/:a".POST(c35), "/c36/:a".POST(c36)))),
+            "/w".By(Ohkami::new(("/c37/:a/:b".GET(c37), "/c38/:a/:b".POST(c38), "/c39/:a/:b".POST(c39), "/c40/:a/:b".POST(c40), "/c41".POST(c41), "/c42".POST(c42)))),
         ))),
         "/m/:p".By(Ohkami::new(("/x/:a".GET(h_mounted),))),
     )).test()
